@@ -126,3 +126,70 @@ func genPayload(r *prng.R, known map[string]any, opcodes map[string]uint32, dept
 	}
 	return "", nil, nil, true
 }
+
+// abi.InMsgBody (message bodies dispatched on the opcode by InternalMessageDecoder):
+// empty body, unknown opcode, a known opcode with a foreign body, and typed bodies
+// obtained by decoding op + body of a few known message types.
+func init() {
+	leafGens[reflect.TypeOf(abi.InMsgBody{})] = genInMsgBody
+}
+
+func genInMsgBody(r *prng.R, dst reflect.Value, depth int) bool {
+	known := []struct {
+		op   uint32
+		body any
+	}{
+		{abi.TextCommentMsgOpCode, abi.TextCommentMsgBody{}},
+		{abi.JettonBurnNotificationMsgOpCode, abi.JettonBurnNotificationMsgBody{}},
+		{abi.ExcessMsgOpCode, abi.ExcessMsgBody{}},
+		{abi.JettonMintMsgOpCode, abi.JettonMintMsgBody{}},
+	}
+	decode := func(c *boc.Cell) (abi.InMsgBody, error) {
+		var b abi.InMsgBody
+		cp := *c
+		cp.ResetCounters()
+		err := tlb.Unmarshal(&cp, &b)
+		return b, err
+	}
+	switch mode := r.Intn(8); {
+	case mode == 0:
+		dst.Set(reflect.ValueOf(abi.InMsgBody{}))
+		return true
+	case mode <= 2: // typed: op + an encoded body of that type, read back by the library
+		k := known[r.Intn(len(known))]
+		v := reflect.New(reflect.TypeOf(k.body)).Elem()
+		if !GoRand(r, v, "", depth+1) {
+			break
+		}
+		c := boc.NewCell()
+		_ = c.WriteUint(uint64(k.op), 32)
+		if tlb.Marshal(c, v.Interface()) != nil {
+			break
+		}
+		if b, err := decode(c); err == nil && b.SumType != abi.UnknownMsgOp && b.SumType != abi.EmptyMsgOp {
+			dst.Set(reflect.ValueOf(b))
+			return true
+		}
+	case mode <= 4: // unknown opcode: the value is the raw cell, opcode included
+		op := uint32(r.U64()) | 0x80000001
+		c := rawPayloadCell(r, op, 3)
+		if b, err := decode(c); err == nil && b.SumType == abi.UnknownMsgOp {
+			dst.Set(reflect.ValueOf(abi.InMsgBody{SumType: abi.UnknownMsgOp, OpCode: &op, Value: c}))
+			return true
+		}
+	default: // a known opcode followed by something else
+		k := known[r.Intn(len(known))]
+		kind := r.Intn(4)
+		if k.op == 0 {
+			kind = 1
+		}
+		c := rawPayloadCell(r, k.op, kind)
+		if b, err := decode(c); err != nil || b.SumType == abi.UnknownMsgOp {
+			op := k.op
+			dst.Set(reflect.ValueOf(abi.InMsgBody{SumType: abi.UnknownMsgOp, OpCode: &op, Value: c}))
+			return true
+		}
+	}
+	dst.Set(reflect.ValueOf(abi.InMsgBody{}))
+	return true
+}
